@@ -214,6 +214,26 @@ for i = a, b, c do
 end
 for k = 1, n do local v = fs[k]() emit(v, math.type(v)) end
 emit("end", n)`, true},
+	{"modify", `local a,b,c = ...
+local n = 0
+local function bump() b = 7 c = 3 end
+for i = a, b, c do
+  emit(i, math.type(i))
+  if n % 2 == 0 then b = 1000 c = 1000 else bump() end
+  n = n + 1
+  if n >= 6 then break end
+end
+emit("end", n)`, true},
+	{"inspect", `local a,b,c = ...
+local b0, c0 = select(2, ...)
+local n = 0
+for i = a, b, c do
+  emit(i, math.type(i))
+  n = n + 1
+  if n >= 6 then break end
+end
+emit("end", n)
+emit("same", (b ~= b and b0 ~= b0 or rawequal(b, b0)) and math.type(b) == math.type(b0), (c ~= c and c0 ~= c0 or rawequal(c, c0)) and math.type(c) == math.type(c0), type(b), type(c))`, true},
 	{"once", `local a,b,c = ...
 local function ev(k, v) emit("eval", k) return v end
 local n = 0
@@ -264,6 +284,9 @@ func expected(v variant, r refResult) host.Obs {
 	o.Status = "ok"
 	o.Trace = append(o.Trace, r.events...)
 	o.Trace = append(o.Trace, fmt.Sprintf(`s:"end",i:%d`, r.n))
+	if v.name == "inspect" {
+		o.Trace = append(o.Trace, "SAME") // compared by prefix in eqTrace callers
+	}
 	return o
 }
 
@@ -271,7 +294,7 @@ func main() {
 	core.Main(&core.Check{
 		ID:    "C16",
 		Level: "model_checking",
-		Rule: "every (start,limit,step) triple of the boundary lattice x 6 loop shapes (args/literals, no step, body assigns the variable, closure per iteration, control expressions wrapped in logging calls); " +
+		Rule: "every (start,limit,step) triple of the boundary lattice x 8 loop shapes (args/literals, no step, body assigns the loop variable, body assigns the variables that gave limit and step (directly and through a closure), those variables inspected after the loop, closure per iteration, control expressions wrapped in logging calls); " +
 			"non-trivial = the reference determines the outcome (not skipped as unspecified); distinct = distinct observations",
 		Assumptions: []string{
 			"reference semantics typed from Lua 5.4 manual §3.3.5 with math/big exact comparison",
@@ -354,6 +377,13 @@ func eqTrace(a, b []string) bool {
 		return false
 	}
 	for i := range a {
+		if b[i] == "SAME" {
+			// the control variables are untouched by the loop
+			if !strings.HasPrefix(a[i], `s:"same",true,true,`) {
+				return false
+			}
+			continue
+		}
 		if a[i] != b[i] {
 			return false
 		}
@@ -377,6 +407,12 @@ func eqSeq(a, b []string) bool {
 		return s
 	}
 	for i := range a {
+		if b[i] == "SAME" {
+			if !strings.HasPrefix(a[i], `s:"same",true,true,`) {
+				return false
+			}
+			continue
+		}
 		if num(a[i]) != num(b[i]) {
 			// integer 1 vs float 1 spelling
 			var x, y float64
